@@ -28,7 +28,7 @@ from explore import Violation
 from lattice import Dim, base_opts, build_args, deviations
 
 PROP = "C08"
-LINE_CONTENTS = ["a", "b c", "b  c ", "\tx", ""]
+LINE_CONTENTS = ["a", "b c", "b  c ", "\tx", "", "y" * 31 + "漢 "]
 
 DIMS = [
     Dim("view", [("unified", {}), ("sbs", {"side-by-side": True})]),
@@ -41,6 +41,10 @@ DIMS = [
     Dim("width", [("40", {}), ("20", {"width": "20"}), ("variable", {"width": "variable"})]),
     Dim("syntax", [("none", {}), ("on", {"syntax-theme": "Monokai Extended"})]),
     Dim("default-styles", [("reserved", {}), ("delta-defaults", {"_plain": True})]),
+    # truncation works on the raw (still coloured) line: the cut must fall at the same visible column
+    # (longer than every header line, shorter than the long content line, whose double-width character
+    # straddles the cut)
+    Dim("max-line-length", [("3000", {}), ("33", {"max-line-length": "33"}), ("34", {"max-line-length": "34"})]),
 ]
 
 GIT_ENV = {"PATH": "/usr/local/bin:/usr/bin:/bin", "HOME": "/nonexistent", "GIT_CONFIG_NOSYSTEM": "1",
@@ -51,18 +55,29 @@ GIT_ENV = {"PATH": "/usr/local/bin:/usr/bin:/bin", "HOME": "/nonexistent", "GIT_
 
 
 def files(n):
-    """all files of <= n lines over LINE_CONTENTS (as tuples of lines), incl. the empty file"""
+    """all files of <= n lines over LINE_CONTENTS (as tuples of line indices), incl. the empty file; a
+    trailing -1 marks a file whose last line has no newline (git then emits `\ No newline at end of file`)"""
     out = [()]
     for k in range(1, n + 1):
-        out.extend(itertools.product(range(len(LINE_CONTENTS)), repeat=k))
+        for t in itertools.product(range(len(LINE_CONTENTS)), repeat=k):
+            out.append(t)
+            if LINE_CONTENTS[t[-1]] != "":
+                out.append(t + (-1,))
     return out
+
+
+def file_text(t):
+    nonl = bool(t) and t[-1] == -1
+    lines = [LINE_CONTENTS[i] for i in t if i >= 0]
+    s = "".join(l + "\n" for l in lines)
+    return s[:-1] if nonl else s
 
 
 def git_diff(tmp, old, new, colour, extra=()):
     with open(os.path.join(tmp, "o.txt"), "w") as f:
-        f.write("".join(LINE_CONTENTS[i] + "\n" for i in old))
+        f.write(file_text(old))
     with open(os.path.join(tmp, "n.txt"), "w") as f:
-        f.write("".join(LINE_CONTENTS[i] + "\n" for i in new))
+        f.write(file_text(new))
     p = subprocess.run(["git", "diff", "--no-index", "--color=" + colour] + list(extra) + ["o.txt", "n.txt"],
                        cwd=tmp, env=GIT_ENV, stdout=subprocess.PIPE, stderr=subprocess.PIPE)
     if p.returncode not in (0, 1):
@@ -415,7 +430,7 @@ def main(tier):
                 "or one moved-line rendition; non-trivial = the coloured input differs from the plain one "
                 "(%d) or a distinct rendition observed on a moved line (%d)"
                 % (differing, sum(r["distinct"] for r in mres)),
-        "samples": [{"old": [LINE_CONTENTS[i] for i in cases[5][0]], "new": [LINE_CONTENTS[i] for i in cases[5][1]],
+        "samples": [{"old": file_text(cases[5][0]), "new": file_text(cases[5][1]),
                      "coloured_input": cases[5][3][0].decode("latin-1")}],
         "file_pairs": len(cases), "max_lines_per_side": nlines, "modes": len(configs),
         "config_deviation_bound": d, "renditions": len(rends), "modes_rejected": rejected,
